@@ -155,8 +155,19 @@ def build(extra_mods=(), force_assumed=(), drop_ghost=()):
         fns_, _m = index_functions(extracted[m])
         for q_, (kw_, bo_, bc_) in fns_.items():
             bodies[m + '::' + q_] = [hashlib.sha1(' '.join(extracted[m][kw_:bc_ + 1].split()).encode()).hexdigest()[:16],
-                                     shape_hash(extracted[m][kw_:bc_ + 1])]
-    return {'text': text, 'registry': registry, 'logs': logs, 'contracts': allc, 'lost': lost_all, 'bodies': bodies}
+                                     shape_hash(extracted[m][kw_:bc_ + 1]), shape_tokens(extracted[m][kw_:bc_ + 1])]
+    calls = {}
+    for m in mods:
+        fns_, _m = index_functions(extracted[m])
+        for q_, (kw_, bo_, bc_) in fns_.items():
+            calls[m + '::' + q_] = call_names(extracted[m][bo_:bc_ + 1])
+    return {'text': text, 'registry': registry, 'logs': logs, 'contracts': allc, 'lost': lost_all, 'bodies': bodies, 'calls': calls}
+
+
+def call_names(body_text):
+    import rustlex
+    msk = rustlex.mask(body_text)
+    return sorted({m_.group(1) for m_ in re.finditer(r'\b([A-Za-z_][A-Za-z_0-9]*)\s*\(', msk)})
 
 
 def ghost_item_at(text, line):
@@ -230,6 +241,28 @@ def drop_items(text, first_lines, log):
 
 
 _SHAPE_KW = {'for', 'while', 'loop', 'if', 'else', 'match', 'let', 'return', 'break', 'continue', 'fn', 'const', 'in'}
+
+
+def shape_tokens(fn_text):
+    import rustlex
+    msk = rustlex.mask(fn_text)
+    toks = []
+    for m_ in re.finditer(r'[A-Za-z_][A-Za-z_0-9]*!?|[{}]', msk):
+        t_ = m_.group(0)
+        if t_ in '{}' or t_ in _SHAPE_KW:
+            toks.append(t_)
+        else:
+            rest = msk[m_.end():m_.end() + 2].lstrip()
+            if rest.startswith('(') or t_.endswith('!'):
+                toks.append(t_ + '()')
+    return toks
+
+
+def shape_distance(a, b):
+    """number of skeleton tokens inserted, deleted or replaced between two bodies"""
+    import difflib
+    sm = difflib.SequenceMatcher(None, a, b, autojunk=False)
+    return sum(max(i2 - i1, j2 - j1) for tag, i1, i2, j1, j2 in sm.get_opcodes() if tag != 'equal')
 
 
 def shape_hash(fn_text):
